@@ -147,6 +147,26 @@ func checkAgainstCanonX(c *child.Ctx, cj []byte, cn *[2]canon, i int, li int, m 
 		return
 	}
 	before := ref.Hash64(m.RawData)
+	if !alreadyDecoded {
+		// a consumer that only displays: the first display of a message nobody has
+		// decoded yet, and the second, give the canonical text too
+		fresh := *m
+		fresh.RawData = append([]byte(nil), m.RawData...)
+		d1 := stripTime(fresh.String(), &fresh)
+		d2 := stripTime(fresh.String(), &fresh)
+		if d1 != d2 {
+			c.Violate("display-not-repeatable", fmt.Sprintf("%s: the first and the second display of frame %d (type %d, not decoded before) differ: %s", where, i, m.MessageType, diffText(d1, d2)), cj)
+			return
+		}
+		if d1 != want.text[li] {
+			c.Violate("differs-from-canonical", fmt.Sprintf("%s: displaying frame %d (type %d) without decoding it first gives a text that differs from the canonical text: %s", where, i, m.MessageType, diffText(d1, want.text[li])), cj)
+			return
+		}
+		if !bytes.Equal(fresh.RawData, m.RawData) {
+			c.Violate("display-modifies-raw-bytes", fmt.Sprintf("%s: the raw bytes of frame %d changed while it was displayed", where, i), cj)
+			return
+		}
+	}
 	var r interface{}
 	var t string
 	if alreadyDecoded {
@@ -484,11 +504,85 @@ func execC15FanOut(c *child.Ctx, k detCase, cj []byte, pool [][]byte, cn [][2]ca
 	c.Count("fan_out_messages_compared", int64(len(idx)*len(levels)))
 }
 
+// execC15NonRTCM: data that is not RTCM is displayed too (the proxy's report, the
+// filter's readable log): of any length, repeatably, leaving the bytes as they were -
+// also the spare capacity behind them, which belongs to whoever owns the buffer.
+func execC15NonRTCM(c *child.Ctx, k detCase, cj []byte) {
+	r := ref.NewRand(k.Seed)
+	for _, n := range k.Order {
+		if n <= 0 {
+			continue
+		}
+		var junk []byte
+		if r.Chance(1, 2) {
+			junk = gen.NoD3(r.Bytes(n))
+		} else {
+			junk = make([]byte, n)
+			for j := range junk {
+				junk[j] = "$GPGSV,3,1,11,03,03,111,00,04,15,270,00,06,01,010,00,13,06,292,00*74\r\n"[j%70]
+			}
+		}
+		for li, lvl := range detLevels {
+			// through single-frame decoding, from a buffer with spare capacity
+			buf := make([]byte, n, n+64)
+			copy(buf, junk)
+			spare := buf[n : n+64]
+			for j := range spare {
+				spare[j] = 0xA5
+			}
+			var msgs []*handler.Message
+			h := handler.New(fixedStart, lvl)
+			if m, _ := h.GetMessage(buf); m != nil {
+				msgs = append(msgs, m)
+			}
+			// and through the stream handler, between two frames
+			f1, f2 := gen.RandFrame(r), gen.RandFrame(r)
+			in := append(append(append([]byte(nil), f1.Bytes...), junk...), f2.Bytes...)
+			sm := runSequential(fixedStart, lvl, in)
+			for j := range sm {
+				if sm[j].MessageType < 0 {
+					msgs = append(msgs, &sm[j])
+				}
+			}
+			for _, m := range msgs {
+				if !bytes.Equal(m.RawData, junk) {
+					continue // C02/C03 judge the segmentation
+				}
+				full := m.RawData[:cap(m.RawData)]
+				snap := append([]byte(nil), full...)
+				t1 := m.String()
+				t2 := m.String()
+				if t1 != t2 {
+					c.Violate("display-not-repeatable", fmt.Sprintf("displaying a non-RTCM message of %d bytes twice (level %v) gives different text: %s", n, lvl, diffText(t1, t2)), cj)
+					return
+				}
+				if !bytes.Equal(m.RawData[:cap(m.RawData)], snap) || !bytes.Equal(m.RawData, junk) {
+					c.Violate("display-modifies-raw-bytes", fmt.Sprintf("displaying a non-RTCM message of %d bytes (level %v) changed its raw bytes or the spare capacity of their buffer: %s", n, lvl, firstDiff(m.RawData[:cap(m.RawData)], snap)), cj)
+					return
+				}
+				if li == 1 && !strings.Contains(t1, fmt.Sprintf("%d bytes", n)) {
+					c.Violate("differs-from-canonical", fmt.Sprintf("the display of a non-RTCM message of %d bytes does not state its length: %q", n, clip(t1)), cj)
+					return
+				}
+				c.Count("non_rtcm_displays_checked", 1)
+			}
+			for j := range spare {
+				if spare[j] != 0xA5 {
+					c.Violate("display-modifies-raw-bytes", fmt.Sprintf("decoding and displaying %d bytes of non-RTCM data wrote into the spare capacity of the caller's buffer at offset %d", n, n+j), cj)
+					return
+				}
+			}
+		}
+	}
+}
+
 func monC15(c *child.Ctx, replay json.RawMessage) {
 	run := func(k detCase, cj []byte) {
 		pool := framePool(k.PoolSeed)
 		cn := buildCanon(pool)
-		if k.Kind == "history" {
+		if k.Kind == "nonrtcm" {
+			execC15NonRTCM(c, k, cj)
+		} else if k.Kind == "history" {
 			execC15History(c, k, cj, pool, cn)
 		} else if k.Kind == "fanout" {
 			execC15FanOut(c, k, cj, pool, cn)
@@ -532,6 +626,16 @@ func monC15(c *child.Ctx, replay json.RawMessage) {
 		if i == 0 {
 			c.Sample(map[string]interface{}{"kind": "history", "pool_size": len(pool), "order_prefix": k.Order[:20]})
 		}
+	}
+	// non-RTCM data of lengths around the longest frame (1029 bytes) and far beyond
+	{
+		k := detCase{Kind: "nonrtcm", Seed: r.Uint64() >> 1, Order: []int{1, 5, 100, 1023, 1026, 1028, 1029, 1030, 1031, 1032, 1033, 1040, 2048, 4097, r.Range(1034, 9000), r.Range(1034, 9000)}}
+		if c.Batch%4 == 0 {
+			k.Order = append(k.Order, 65535, 65536, 70001)
+		}
+		cj := c.BeginV(k)
+		execC15NonRTCM(c, k, cj)
+		c.Eval(ref.Hash64(cj), true)
 	}
 	nf := c.Share(c.Pick(80, 3000))
 	for i := 0; i < nf; i++ {
